@@ -121,7 +121,7 @@ func xffList(x string) []interface{} {
 	if x == "" {
 		return out
 	}
-	for _, e := range strings.Split(x, ",") {
+	for _, e := range strings.Split(strings.ReplaceAll(x, "\n", ","), ",") {
 		out = append(out, addrRec(strings.TrimSpace(e)))
 	}
 	return out
